@@ -102,13 +102,14 @@ def run_extras(pid, tier):
             rep['violations'].append(dict(obligation='C18.no_shared_mutable_state', kind='structural-scan', function=None, message='shared mutable state: ' + f,
                                           clause=None, repo_site=None, properties=['C18'], verifier_output='tools/scan_state.py: ' + f))
     if pid in ('C12', 'C15', 'C05'):
-        # standing bounded stand-in for the functions that are NOT under contract (get_content_type_and_charset, trim_ascii, IntoRequestBytes impls, VecSignedHeaderRequirements::add_*/remove_*)
+        # standing bounded checks of the compiled get_content_type_and_charset, trim_ascii, IntoRequestBytes impls, VecSignedHeaderRequirements::add_*/remove_*: these are
+        # under contract by now, but through outlined iterator idioms / declared desugarings; the compiled originals are compared with the same specs, bounded
         st = native_run(['standing', pid], timeout=120)
         rep['standing_bounded'] = st
         if st and st.get('found'):
             d0 = st['disagreements'][0]
             rep['violations'].append(dict(obligation='bounded.' + d0['search'], kind='bounded-native-disagreement', function=d0['disagreement'].get('fn'),
-                                          message='bounded check of a function not under contract: ' + json.dumps(d0['disagreement'])[:300], clause=None, repo_site=None,
+                                          message='bounded check of the compiled function against its spec: ' + json.dumps(d0['disagreement'])[:300], clause=None, repo_site=None,
                                           properties=[pid], verifier_output=json.dumps(d0['disagreement'])))
             rep['failing_input'] = st
         if st:
